@@ -9,6 +9,7 @@ import (
 	"path/filepath"
 	"sort"
 	"strings"
+	"sync"
 
 	"golang.org/x/tools/go/packages"
 )
@@ -82,6 +83,12 @@ func replayMutants(repo, prop, verifDir string) map[string]any {
 			pats = append(pats, sp)
 		}
 	}
+	type job struct {
+		p      string
+		expect string
+		seeded bool
+	}
+	var jobs []job
 	for _, p := range pats {
 		props, expect := mutantHeader(p)
 		if se, ok := seedExpect[p]; ok {
@@ -96,73 +103,34 @@ func replayMutants(repo, prop, verifDir string) map[string]any {
 		if !applies {
 			continue
 		}
-		row := map[string]any{"mutant": filepath.Base(p), "expect": expect}
-		if _, ok := seedExpect[p]; ok {
-			row["mutant"] = "seeded/" + filepath.Base(filepath.Dir(p))
-		}
-		tmp, err := os.MkdirTemp("", "gonnx-mut-")
-		if err != nil {
-			row["result"] = "skipped: " + err.Error()
-			rows = append(rows, row)
+		_, isSeed := seedExpect[p]
+		jobs = append(jobs, job{p, expect, isSeed})
+	}
+	// replay in parallel (each replay is an independent process on its own scratch copy)
+	results := make([]map[string]any, len(jobs))
+	outcome := make([]int, len(jobs)) // 0 ok, 1 mismatch, 2 skipped
+	sem := make(chan struct{}, 6)
+	var wg sync.WaitGroup
+	for i, j := range jobs {
+		wg.Add(1)
+		sem <- struct{}{}
+		go func(i int, j job) {
+			defer wg.Done()
+			defer func() { <-sem }()
+			results[i], outcome[i] = replayOne(self, repo, prop, verifDir, j.p, j.expect, j.seeded)
+		}(i, j)
+	}
+	wg.Wait()
+	for i := range jobs {
+		rows = append(rows, results[i])
+		switch outcome[i] {
+		case 0:
+			nOK++
+		case 1:
+			nMiss++
+		default:
 			nSkip++
-			continue
 		}
-		func() {
-			defer os.RemoveAll(tmp)
-			scratch := filepath.Join(tmp, "repo")
-			if out, err := exec.Command("rsync", "-a", "--exclude", ".git", repo+"/", scratch+"/").CombinedOutput(); err != nil {
-				row["result"] = "skipped: copy failed: " + string(out)
-				nSkip++
-				return
-			}
-			cmd := exec.Command("patch", "-p1", "-s", "--no-backup-if-mismatch", "-i", p)
-			cmd.Dir = scratch
-			if out, err := cmd.CombinedOutput(); err != nil {
-				row["result"] = "skipped: patch does not apply to the current tree: " + firstLine(string(out))
-				nSkip++
-				return
-			}
-			ev := filepath.Join(tmp, "ev.json")
-			cmd = exec.Command(self, "-repo", scratch, "-property", prop, "-tier", "quick", "-evidence", ev, "-verif", filepath.Join(tmp, "noverif"))
-			// known findings still apply (same keys), but evidence/violations go to tmp
-			os.MkdirAll(filepath.Join(tmp, "noverif"), 0o755)
-			if b, err := os.ReadFile(filepath.Join(verifDir, "known_findings.json")); err == nil {
-				os.WriteFile(filepath.Join(tmp, "noverif", "known_findings.json"), b, 0o644)
-			}
-			out, _ := cmd.CombinedOutput()
-			code := cmd.ProcessState.ExitCode()
-			var evd struct {
-				Coverage struct {
-					ViolatedKeys []string `json:"violated_keys"`
-				} `json:"coverage"`
-			}
-			if b, err := os.ReadFile(ev); err == nil {
-				json.Unmarshal(b, &evd)
-			}
-			got := evd.Coverage.ViolatedKeys
-			row["exit"] = code
-			row["violated_keys"] = got
-			ok := false
-			if expect == "silent" {
-				ok = code == 0
-			} else {
-				for _, k := range got {
-					if strings.Contains(k, expect) {
-						ok = true
-					}
-				}
-				ok = ok && code == 1
-			}
-			if ok {
-				row["result"] = "as expected"
-				nOK++
-			} else {
-				row["result"] = "MISMATCH"
-				row["output_tail"] = tail(string(out), 5)
-				nMiss++
-			}
-		}()
-		rows = append(rows, row)
 	}
 	res["mutants"] = rows
 	res["as_expected"] = nOK
@@ -170,6 +138,76 @@ func replayMutants(repo, prop, verifDir string) map[string]any {
 	res["skipped"] = nSkip
 	fmt.Printf("  mutant replay: %d as expected, %d mismatch, %d skipped\n", nOK, nMiss, nSkip)
 	return res
+}
+
+// replayOne applies one patch to a scratch copy, runs the checker on it and compares with the expectation.
+func replayOne(self, repo, prop, verifDir, p, expect string, seeded bool) (map[string]any, int) {
+	row := map[string]any{"mutant": filepath.Base(p), "expect": expect}
+	if seeded {
+		row["mutant"] = "seeded/" + filepath.Base(filepath.Dir(p))
+	}
+	res := 0
+	tmp, err := os.MkdirTemp("", "gonnx-mut-")
+	if err != nil {
+		row["result"] = "skipped: " + err.Error()
+		return row, 2
+	}
+	func() {
+		defer os.RemoveAll(tmp)
+		scratch := filepath.Join(tmp, "repo")
+		if out, err := exec.Command("rsync", "-a", "--exclude", ".git", repo+"/", scratch+"/").CombinedOutput(); err != nil {
+			row["result"] = "skipped: copy failed: " + string(out)
+			res = 2
+			return
+		}
+		cmd := exec.Command("patch", "-p1", "-s", "--no-backup-if-mismatch", "-i", p)
+		cmd.Dir = scratch
+		if out, err := cmd.CombinedOutput(); err != nil {
+			row["result"] = "skipped: patch does not apply to the current tree: " + firstLine(string(out))
+			res = 2
+			return
+		}
+		ev := filepath.Join(tmp, "ev.json")
+		cmd = exec.Command(self, "-repo", scratch, "-property", prop, "-tier", "quick", "-evidence", ev, "-verif", filepath.Join(tmp, "noverif"))
+		// known findings still apply (same keys), but evidence/violations go to tmp
+		os.MkdirAll(filepath.Join(tmp, "noverif"), 0o755)
+		if b, err := os.ReadFile(filepath.Join(verifDir, "known_findings.json")); err == nil {
+			os.WriteFile(filepath.Join(tmp, "noverif", "known_findings.json"), b, 0o644)
+		}
+		out, _ := cmd.CombinedOutput()
+		code := cmd.ProcessState.ExitCode()
+		var evd struct {
+			Coverage struct {
+				ViolatedKeys []string `json:"violated_keys"`
+			} `json:"coverage"`
+		}
+		if b, err := os.ReadFile(ev); err == nil {
+			json.Unmarshal(b, &evd)
+		}
+		got := evd.Coverage.ViolatedKeys
+		row["exit"] = code
+		row["violated_keys"] = got
+		ok := false
+		if expect == "silent" {
+			ok = code == 0
+		} else {
+			for _, k := range got {
+				if strings.Contains(k, expect) {
+					ok = true
+				}
+			}
+			ok = ok && code == 1
+		}
+		if ok {
+			row["result"] = "as expected"
+			res = 0
+		} else {
+			row["result"] = "MISMATCH"
+			row["output_tail"] = tail(string(out), 5)
+			res = 1
+		}
+	}()
+	return row, res
 }
 
 func firstLine(s string) string {
